@@ -368,9 +368,12 @@ def make_item(p, a, r, gen_children=None):
         return Item("attr", key, shape="attribute", toks=[Tok("raw", b)], value=b)
     if k == "expression" and key == "expression" and r.random() < 0.12:
         # a list expression: the elements are kept as written (numbers are not re-spelled, words keep their case)
-        els = [r.choice(["a", "road", "Main_St", "01", "007", "2.50", "+3", "1e3", "5.", ".5", "TRUE", "false", "x1", "-0", "10"]) for _ in range(r.randint(1, 5))]
-        s = "{" + ",".join(els) + "}"
-        return Item("attr", key, shape="list", toks=[Tok("raw", s)], value=s)
+        els = [r.choice(["a", "road", "Main_St", "01", "007", "2.50", "+3", "1e3", "5.", ".5", "TRUE", "false", "x1", "-0", "10", "class one"])
+               for _ in range(r.randint(1, 5))]
+        # blanks after a comma are layout (one, two, several), as people write lists
+        sep = r.choice([",", ",", ", ", ",  ", ",   "])
+        s = "{" + els[0] + "".join((sep if r.random() < 0.7 else ",") + e for e in els[1:]) + "}"
+        return Item("attr", key, shape="list", toks=[Tok("raw", s)], value=s, expr=els)
     if k == "expression":
         src, tree = rand_expr(r)
         return Item("attr", key, shape="expression", toks=[Tok("raw", src)], value=None, expr=tree)
